@@ -5,6 +5,7 @@
 -/
 import Jence.Model.MoveGen
 import Jence.Lemmas.ListExtra
+import Jence.Lemmas.Legality
 namespace Jence.Props.C01
 open Jence
 
@@ -16,21 +17,31 @@ theorem tzcnt_le (b : UInt64) : tzcnt b ≤ 64 := by
     repeat' split
     all_goals omega
 
-theorem bitsOfAux_le (fuel : Nat) (b : UInt64) (acc : List Nat) (h : ∀ s ∈ acc, s ≤ 64) :
-    ∀ s ∈ bitsOfAux fuel b acc, s ≤ 64 := by
+theorem tzcnt_lt (b : UInt64) (hb : (b == 0) = false) : tzcnt b < 64 := by
+  unfold tzcnt
+  simp only [hb, Bool.false_eq_true, ↓reduceIte]
+  repeat' split
+  all_goals omega
+
+theorem bitsOfAux_lt (fuel : Nat) (b : UInt64) (acc : List Nat) (h : ∀ s ∈ acc, s < 64) :
+    ∀ s ∈ bitsOfAux fuel b acc, s < 64 := by
   induction fuel generalizing b acc with
   | zero => simpa [bitsOfAux] using h
   | succ n ih =>
     simp only [bitsOfAux]
     split
     · simpa using h
-    · apply ih
+    · rename_i hb
+      apply ih
       intro s hs
       rcases List.mem_cons.mp hs with rfl | hs
-      · exact tzcnt_le b
+      · exact tzcnt_lt b (by simpa using hb)
       · exact h s hs
 
-theorem bitsOf_le (b : UInt64) : ∀ s ∈ bitsOf b, s ≤ 64 := bitsOfAux_le 64 b [] (by simp)
+/-- the squares a bit-set loop visits are squares -/
+theorem bitsOf_lt (b : UInt64) : ∀ s ∈ bitsOf b, s < 64 := bitsOfAux_lt 64 b [] (by simp)
+
+theorem bitsOf_le (b : UInt64) : ∀ s ∈ bitsOf b, s ≤ 64 := fun s hs => Nat.le_of_lt (bitsOf_lt b s hs)
 
 private def b2n (b : Bool) : Nat := if b then 1 else 0
 private theorem flag_eq (K : Nat) (b : Bool) : (if b then K else 0) = K * b2n b := by cases b <;> simp [b2n]
@@ -156,5 +167,189 @@ theorem gen_quiescence_eq_filter (g : Game) (hep : g.ep ≤ 64) :
       (bitsOf (g.bb (WP + if g.white then 0 else 6))).flatMap (fun a => (pawnMoves g true a).filter Move.isCapture) :=
     List.flatMap_congr' (fun f hf => pawnMoves_filter g f (bitsOf_le _ f hf) hep)
   rw [hpawn]
+
+/-! ### T1.2 — the two legality routes are one predicate on generated moves -/
+
+/-- what every generated move looks like: packed from in-range fields, and flagged en passant only if flagged capture -/
+def GenShape (m : Move) : Prop :=
+  ∃ f t p pr c d e k, m = Move.mk' f t p pr c d e k ∧ f < 64 ∧ t ≤ 255 ∧ p ≤ 12 ∧ pr ≤ 12 ∧ (e = true → c = true) ∧
+    (d = true → t + 8 ≤ 64)
+
+theorem isEnpassant_mk (f t p pr : Nat) (cap dbl ep cas : Bool) (hf : f ≤ 64) (ht : t ≤ 255) (hp : p ≤ 12) (hpr : pr ≤ 12) :
+    (Move.mk' f t p pr cap dbl ep cas).isEnpassant = ep := by
+  simp only [Move.mk', Move.isEnpassant, flag_eq]
+  have h1 := b2n_le cap; have h2 := b2n_le dbl; have h3 := b2n_le ep; have h4 := b2n_le cas
+  exact beq_one_iff _ _ (by omega)
+
+theorem GenShape.ep_imp_cap {m : Move} (h : GenShape m) : m.isEnpassant = true → m.isCapture = true := by
+  obtain ⟨f, t, p, pr, c, d, e, k, rfl, hf, ht, hp, hpr, hec, _⟩ := h
+  rw [isEnpassant_mk _ _ _ _ _ _ _ _ (by omega) ht hp hpr, isCapture_mk _ _ _ _ _ _ _ _ (by omega) ht hp hpr]
+  exact hec
+
+theorem shape_mk (f t p pr : Nat) (c d e k : Bool) (hf : f < 64) (ht : t ≤ 255) (hp : p ≤ 12) (hpr : pr ≤ 12)
+    (hec : e = true → c = true) (hd : d = true → t + 8 ≤ 64 := by simp) : GenShape (Move.mk' f t p pr c d e k) :=
+  ⟨f, t, p, pr, c, d, e, k, rfl, hf, ht, hp, hpr, hec, hd⟩
+
+theorem pawnQuiet_shape (g : Game) (f : Nat) (hf : f < 64) : ∀ m ∈ pawnQuiet g f, GenShape m := by
+  intro m hm
+  unfold pawnQuiet at hm
+  cases hw : g.white
+  all_goals
+    simp only [hw, Bool.false_eq_true, ↓reduceIte] at hm
+    split at hm
+    · split at hm
+      · rcases List.mem_cons.mp hm with rfl | hm
+        · exact shape_mk _ _ _ _ _ _ _ _ hf (by first | exact u8sub8_le _ | exact u8add8_le _) (by decide) (by decide) (by simp)
+        · split at hm
+          · rename_i hd
+            rcases List.mem_singleton.mp hm with rfl
+            have hrow : f / 8 = 6 ∨ f / 8 = 1 := by
+              simp only [Bool.and_eq_true, beq_iff_eq] at hd
+              first | exact Or.inl hd.2 | exact Or.inr hd.2
+            refine shape_mk _ _ _ _ _ _ _ _ hf (by first | exact u8sub8_le _ | exact u8add8_le _) (by decide) (by decide) (by simp) ?_
+            intro _
+            simp only [Bool.and_eq_true, beq_iff_eq] at hd
+            have := hd.2
+            simp only [u8sub8, u8add8]
+            omega
+          · exact absurd hm (List.not_mem_nil)
+      · obtain ⟨p, hp, rfl⟩ := List.mem_map.mp hm
+        exact shape_mk _ _ _ _ _ _ _ _ hf (by first | exact u8sub8_le _ | exact u8add8_le _) (by decide) (promos_le _ p hp) (by simp)
+    · exact absurd hm (List.not_mem_nil)
+
+theorem pawnEp_shape (g : Game) (f : Nat) (hf : f < 64) (hep : g.ep ≤ 64) : ∀ m ∈ pawnEp g f, GenShape m := by
+  intro m hm
+  unfold pawnEp at hm
+  simp only at hm
+  split at hm
+  · rcases List.mem_singleton.mp hm with rfl
+    exact shape_mk _ _ _ _ _ _ _ _ hf (by omega) (pawn_piece_le _) (by decide) (by simp)
+  · exact absurd hm (List.not_mem_nil)
+
+theorem pawnCaps_shape (g : Game) (f : Nat) (hf : f < 64) : ∀ m ∈ pawnCaps g f, GenShape m := by
+  intro m hm
+  unfold pawnCaps at hm
+  simp only [List.mem_flatMap] at hm
+  obtain ⟨t, ht, hm⟩ := hm
+  have ht64 : t ≤ 64 := bitsOf_le _ t ht
+  cases hw : g.white
+  all_goals
+    simp only [hw, Bool.false_eq_true, ↓reduceIte] at hm
+    split at hm
+    · rcases List.mem_singleton.mp hm with rfl
+      exact shape_mk _ _ _ _ _ _ _ _ hf (by omega) (by decide) (by decide) (by simp)
+    · obtain ⟨p, hp, rfl⟩ := List.mem_map.mp hm
+      exact shape_mk _ _ _ _ _ _ _ _ hf (by omega) (by decide) (promos_le _ p hp) (by simp)
+
+theorem castling_shape (g : Game) (all : Bool) : ∀ m ∈ castlingMoves g all, GenShape m := by
+  intro m hm
+  unfold castlingMoves at hm
+  split at hm
+  · exact absurd hm (List.not_mem_nil)
+  · split at hm
+    all_goals
+      simp only [List.mem_append] at hm
+      rcases hm with hm | hm <;>
+        (split at hm <;> first
+          | (rcases List.mem_singleton.mp hm with rfl
+             exact shape_mk _ _ _ _ _ _ _ _ (by decide) (by decide) (by decide) (by decide) (by simp))
+          | exact absurd hm (List.not_mem_nil))
+
+theorem pieceMoves_shape (g : Game) (all : Bool) (piece : Nat) (hp : piece ≤ 12) (att : Nat → UInt64) :
+    ∀ m ∈ pieceMoves g all piece att, GenShape m := by
+  intro m hm
+  unfold pieceMoves at hm
+  simp only [List.mem_flatMap, List.mem_append] at hm
+  obtain ⟨f, hf, hm⟩ := hm
+  have hf64 : f < 64 := bitsOf_lt _ f hf
+  rcases hm with hm | hm
+  · split at hm
+    · obtain ⟨t, ht, rfl⟩ := List.mem_map.mp hm
+      exact shape_mk _ _ _ _ _ _ _ _ hf64 (by have := bitsOf_le _ t ht; omega) hp (by decide) (by simp)
+    · exact absurd hm (List.not_mem_nil)
+  · obtain ⟨t, ht, rfl⟩ := List.mem_map.mp hm
+    exact shape_mk _ _ _ _ _ _ _ _ hf64 (by have := bitsOf_le _ t ht; omega) hp (by decide) (by simp)
+
+/-- every generated move (either mode) has the generated shape -/
+theorem generated_shape (g : Game) (all : Bool) (hep : g.ep ≤ 64) : ∀ m ∈ generateMoves g all, GenShape m := by
+  intro m hm
+  unfold generateMoves at hm
+  simp only [List.mem_append, List.mem_flatMap] at hm
+  have hpc : ∀ k, k ≤ 5 → k + (if g.white then 0 else 6) ≤ 12 := fun k hk => by split <;> omega
+  rcases hm with ((((((⟨f, hf, hm⟩ | hm) | hm) | hm) | hm) | hm) | hm)
+  · have hf64 := bitsOf_lt _ f hf
+    unfold pawnMoves at hm
+    simp only [List.mem_append] at hm
+    rcases hm with (hm | hm) | hm
+    · split at hm
+      · exact pawnQuiet_shape g f hf64 m hm
+      · exact absurd hm (List.not_mem_nil)
+    · exact pawnEp_shape g f hf64 hep m hm
+    · exact pawnCaps_shape g f hf64 m hm
+  · exact castling_shape g all m hm
+  · exact pieceMoves_shape g all _ (hpc 1 (by omega)) _ m hm
+  · exact pieceMoves_shape g all _ (hpc 2 (by omega)) _ m hm
+  · exact pieceMoves_shape g all _ (hpc 3 (by omega)) _ m hm
+  · exact pieceMoves_shape g all _ (hpc 4 (by omega)) _ m hm
+  · exact pieceMoves_shape g all _ (hpc 5 (by omega)) _ m hm
+
+/-- **T1.2** For every position (legal or not) and every generated move, in either mode: the legality test the move
+    filter uses and the rejection inside `make` are the same predicate, so the set of moves the engine treats as legal is
+    the same whether it filters its generated moves or tries to make them. -/
+theorem legality_paths_agree (g : Game) (hep : g.ep ≤ 64) (all : Bool) (m : Move) (hm : m ∈ generateMoves g all) :
+    isLegal g m = (makeCore g m).isSome :=
+  Jence.legality_paths_agree g m (generated_shape g all hep m hm).ep_imp_cap
+
+/-- the legal list is the generated list restricted to the moves `make` accepts -/
+theorem legalValues_eq_made (g : Game) (hep : g.ep ≤ 64) :
+    legalValues g = (generateMoves g true).filter (fun m => (makeCore g m).isSome) := by
+  unfold legalValues
+  apply List.filter_congr
+  intro m hm
+  exact legality_paths_agree g hep true m hm
+
+/-- every move of the legal list can be made (discharges the hypothesis of `Props/C05.position_history`) -/
+theorem legal_moves_can_be_made (g : Game) (hep : g.ep ≤ 64) (m : Move) (hm : m ∈ legalValues g) : (makeCore g m).isSome := by
+  rw [legalValues_eq_made g hep] at hm
+  simpa using (List.mem_filter.mp hm).2
+
+/-! ### the en-passant field stays a square number -/
+
+theorem isDoublePush_mk (f t p pr : Nat) (cap dbl ep cas : Bool) (hf : f ≤ 64) (ht : t ≤ 255) (hp : p ≤ 12) (hpr : pr ≤ 12) :
+    (Move.mk' f t p pr cap dbl ep cas).isDoublePush = dbl := by
+  simp only [Move.mk', Move.isDoublePush, flag_eq]
+  have h1 := b2n_le cap; have h2 := b2n_le dbl; have h3 := b2n_le ep; have h4 := b2n_le cas
+  exact beq_one_iff _ _ (by omega)
+
+theorem toSq_mk (f t p pr : Nat) (cap dbl ep cas : Bool) (hf : f < 64) (ht : t < 64) :
+    (Move.mk' f t p pr cap dbl ep cas).toSq = t := by
+  simp only [Move.mk', Move.toSq, flag_eq]
+  omega
+
+theorem postSide_ep (g : Game) : (postSide g).ep = g.ep := by
+  unfold postSide; simp only; split <;> rfl
+
+theorem makePost_ep (g : Game) (m : Move) (h : GenShape m) : (makePost g m).ep ≤ 64 := by
+  obtain ⟨f, t, p, pr, c, d, e, k, rfl, hf, ht, hp, hpr, _, hd⟩ := h
+  unfold makePost
+  rw [postSide_ep]
+  unfold postRights
+  simp only
+  unfold postEp
+  rw [isDoublePush_mk _ _ _ _ _ _ _ _ (Nat.le_of_lt hf) ht hp hpr]
+  cases d with
+  | false => simp
+  | true =>
+    have ht8 := hd rfl
+    simp only [↓reduceIte, toSq_mk _ _ _ _ _ _ _ _ hf (by omega : t < 64)]
+    split <;> simp <;> omega
+
+/-- making a generated move leaves the en-passant field a square number or "none" -/
+theorem makeCore_ep (g g' : Game) (m : Move) (hs : GenShape m) (h : makeCore g m = some g') : g'.ep ≤ 64 := by
+  unfold makeCore at h
+  simp only at h
+  split at h
+  · simp at h
+  · simp only [Option.some.injEq] at h; rw [← h]; exact makePost_ep _ m hs
 
 end Jence.Props.C01
